@@ -93,7 +93,7 @@ func c20() *core.Check {
 	return &core.Check{
 		ID:         "C20",
 		Exhaustive: true,
-		Rule: "all entries of the five live tables (read through the accessors after package initialisation) are checked against the well-formedness predicates; every entry of baseline/tables.json (snapshot of the pinned tree) must be present with the same classification; every baseline entry is additionally exercised through the real look-up path (isBlackTag / isBlackAttr per name, token class per keyword, every multi-word key through the folder's merge in four probe frames); the tables are digested again at a second quiescent point after ~30 000 calls over the corpus, every tag, event and keyword, and must be unchanged. Finite and enumerated completely. " +
+		Rule: "all entries of the five live tables (read through the accessors after package initialisation) are checked against the well-formedness predicates; every entry of baseline/tables.json (snapshot of the pinned tree) must be present with the same classification; every baseline entry is additionally exercised through the real look-up path (isBlackTag / isBlackAttr per name, token class per keyword, every multi-word key through the folder's merge in four probe frames), once in the fresh process and once more after five look-alikes of every name went through the same look-ups; the tables are digested again at a second quiescent point after ~30 000 calls over the corpus, every tag, event and keyword, and must be unchanged. Finite and enumerated completely. " +
 			"Non-trivial = every table entry; distinct by table+key.",
 		Plan: func(tier string, seed uint64) []core.Unit { return []core.Unit{{Gen: "tables", Lo: 0, Hi: 1}} },
 		Gen: func(w *core.Worker, u core.Unit, emit func(core.Case)) {
@@ -240,6 +240,77 @@ func c20() *core.Check {
 					bad("entry-unreachable", fmt.Sprintf("event %q is listed but <a on%s=x> is not detected", n, strings.ToLower(n)))
 				}
 			}
+			// the same look-ups again after every name's look-alikes (same length with
+			// the last or first letter changed, one letter more, one less) went
+			// through them: a memo or cache keyed by a truncated or folded name
+			// answers the real entry with its look-alike's "not listed"
+			alike := func(n string) []string {
+				l := strings.ToLower(n)
+				if len(l) < 2 {
+					return nil
+				}
+				sub := byte('q')
+				if l[len(l)-1] == 'q' {
+					sub = 'z'
+				}
+				return []string{l[:len(l)-1] + string([]byte{sub}), string([]byte{sub}) + l[1:], l + "x", l[:len(l)-1], l[:len(l)/2] + string([]byte{sub}) + l[len(l)/2+1:]}
+			}
+			for _, t := range base.Tags {
+				for _, a := range alike(t) {
+					li.VerifIsBlackTag(a)
+					li.IsXSS("<" + a + ">")
+				}
+			}
+			for n := range base.Attrs {
+				for _, a := range alike(n) {
+					li.VerifIsBlackAttr(a)
+					li.IsXSS("<a " + a + "=x>")
+				}
+			}
+			for n := range base.Events {
+				for _, a := range alike(n) {
+					li.VerifIsBlackAttr("on" + a)
+					li.IsXSS("<a on" + a + "=x>")
+				}
+			}
+			for k, v := range base.Keywords {
+				if v[0] != 'F' && !strings.Contains(k, " ") {
+					for _, a := range alike(k) {
+						li.VerifSQLTokens(a, li.VerifSQLFlagQuoteNone|li.VerifSQLFlagAnsi)
+						li.IsSQLi("1 " + a + " 1")
+					}
+				}
+			}
+			for _, t := range base.Tags {
+				w.Eval(1)
+				if liveTag[t] && (!li.VerifIsBlackTag(strings.ToLower(t)) || !li.IsXSS("<"+strings.ToLower(t)+">")) {
+					bad("entry-unreachable", fmt.Sprintf("black tag %q is listed but <%s> is no longer detected after its look-alikes were looked up", t, strings.ToLower(t)))
+				}
+			}
+			for n, ty := range base.Attrs {
+				w.Eval(1)
+				if lt, ok := live.Attrs[n]; ok && lt == ty {
+					if got := li.VerifIsBlackAttr(strings.ToLower(n)); got != ty {
+						bad("entry-unreachable", fmt.Sprintf("black attribute %q is listed with type %d but the look-up returns %d after its look-alikes were looked up", n, ty, got))
+					}
+				}
+			}
+			for n, ty := range base.Events {
+				w.Eval(1)
+				if lt, ok := live.Events[n]; ok && lt == ty {
+					if got := li.VerifIsBlackAttr("on" + strings.ToLower(n)); got != ty || !li.IsXSS("<a on"+strings.ToLower(n)+"=x>") {
+						bad("entry-unreachable", fmt.Sprintf("event %q is listed but on%s is classified %d (or <a on%s=x> not detected) after its look-alikes were looked up", n, strings.ToLower(n), got, strings.ToLower(n)))
+					}
+				}
+			}
+			for k, v := range base.Keywords {
+				if lv, ok := live.Keywords[k]; ok && lv == v {
+					if msg := exerciseKeyword(k, v[0]); msg != "" {
+						bad("entry-unreachable", msg+" (after its look-alikes were looked up)")
+					}
+				}
+			}
+			w.Count("look_alike_rounds", 1)
 			// second quiescent point: after a workload that drives both
 			// detectors over the corpus and seeds the tables must be unchanged
 			d0, n0 := tablesDigest()
